@@ -278,12 +278,42 @@ def specialise(fn: ast.FunctionDef, flow, atom) -> ast.FunctionDef:
         except Exception:
             e = test
         # evaluate through canonical atoms
+        def reduce_(x):
+            """x with the conditional expressions inside it resolved where the assumption decides their test"""
+            while isinstance(x, ast.IfExp):
+                v = ev(x.test)
+                if v is None:
+                    break
+                x = x.body if v else x.orelse
+            return x
+
+        def noneness(x):
+            """True: x is None; False: x cannot be None (a literal, or the instance a class call creates); None: unknown"""
+            x = reduce_(x)
+            if isinstance(x, ast.Constant):
+                return x.value is None
+            if isinstance(x, (ast.List, ast.Tuple, ast.Dict, ast.Set, ast.JoinedStr, ast.ListComp, ast.DictComp, ast.SetComp)):
+                return False
+            if isinstance(x, ast.Call):
+                f_ = x.func
+                nm = f_.id if isinstance(f_, ast.Name) else (f_.attr if isinstance(f_, ast.Attribute) else "")
+                if nm[:1].isupper() or nm in ("partial", "list", "dict", "set", "tuple", "str"):
+                    return False
+            return None
+
         def ev(x):
             atoms = canon_cond(x, True)
             if len(atoms) == 1 and atoms[0][0] is x and atoms[0][1] is True:
                 v = atom(x)
                 if v is not None:
                     return v
+                if isinstance(x, ast.Compare) and len(x.ops) == 1 and isinstance(x.ops[0], (ast.Is, ast.Eq)) and isinstance(x.comparators[0], ast.Constant) \
+                        and x.comparators[0].value is None:
+                    return noneness(x.left)
+                if isinstance(x, ast.IfExp):
+                    r_ = reduce_(x)
+                    if r_ is not x:
+                        return ev(r_)
                 if isinstance(x, ast.BoolOp):
                     vals = [ev(y) for y in x.values]
                     if isinstance(x.op, ast.And):
